@@ -25,6 +25,60 @@ fn walk_mix<M: NodeMon>(ctx: &Ctx, rep: &mut Report, mon: &mut M, quick: u64, th
             rep.add("ev_scenario_fanout_nodes", nodes as u64);
         }
     });
+    // under Miri the random playouts are few and short: one directed step per *kind* of move (each
+    // promotion piece with and without capture, both castlings of both colours, e.p., double step, a king
+    // and a rook leaving home, a capture on a rook's home square) makes sure the interpreter executes
+    // every branch of move application and of the incremental updates at least once per run
+    if is_miri {
+        let tour: [(&str, &str); 22] = [
+            ("4k3/P7/8/8/8/8/8/4K3 w - - 0 1", "a7a8q"),
+            ("4k3/P7/8/8/8/8/8/4K3 w - - 0 1", "a7a8n"),
+            ("1r2k3/P7/8/8/8/8/8/4K3 w - - 0 1", "a7b8r"),
+            ("4k3/8/8/8/8/8/p7/1R2K3 b - - 0 1", "a2b1b"),
+            ("r3k2r/8/8/8/8/8/8/R3K2R w KQkq - 0 1", "e1g1"),
+            ("r3k2r/8/8/8/8/8/8/R3K2R w KQkq - 0 1", "e1c1"),
+            ("r3k2r/8/8/8/8/8/8/R3K2R b KQkq - 0 1", "e8g8"),
+            ("r3k2r/8/8/8/8/8/8/R3K2R b KQkq - 0 1", "e8c8"),
+            ("4k3/8/8/3pP3/8/8/8/4K3 w - d6 0 1", "e5d6"),
+            ("4k3/8/8/8/3p4/8/4P3/4K3 w - - 0 1", "e2e4"),
+            ("r3k2r/8/8/8/8/8/8/R3K2R w KQkq - 0 1", "a1a8"),
+            ("r3k2r/8/8/8/8/8/8/R3K2R w KQkq - 0 1", "e1d2"),
+            ("r3k2r/8/8/8/8/8/8/R3K2R b KQkq - 0 1", "h8h1"),
+            ("4k3/8/8/8/8/2b5/3P4/4K3 w - - 0 1", "e1f1"),
+            ("4k3/8/8/8/3pP3/8/8/4K3 b - e3 0 1", "d4e3"),
+            ("4k2r/6P1/8/8/8/8/8/4K3 w k - 0 1", "g7h8q"),
+            // the castle-rights tables consulted for the "wrong" colour's corner and king squares
+            ("R7/4k3/8/8/8/8/8/4K2R w K - 0 1", "a8a2"),
+            ("4k2r/8/8/8/8/8/4K3/r7 b k - 0 1", "a1a7"),
+            ("6kB/7p/8/8/8/8/8/4K2R b K - 0 1", "g8h8"),
+            ("4k2r/8/8/8/8/8/7P/6Kb w k - 0 1", "g1h1"),
+            ("4Q3/8/8/8/8/7k/8/R3K3 w Q - 0 1", "e8e2"),
+            ("r3k3/8/7K/8/8/8/8/4q3 b q - 0 1", "e1e7"),
+        ];
+        ctx.cases(rep, "kinds-tour", 1, |gid, rng, rep| {
+            for (i, (fen, mv)) in tour.iter().enumerate() {
+                if i as u64 % ctx.nshards as u64 != gid % ctx.nshards as u64 {
+                    continue;
+                }
+                let pos = RPos::from_fen(fen).unwrap();
+                let b = mv.as_bytes();
+                let promo = match b.get(4) {
+                    Some(b'q') => Q,
+                    Some(b'r') => R,
+                    Some(b'b') => B,
+                    Some(b'n') => N,
+                    _ => 0,
+                };
+                let m = RMove::new((b[0] - b'a') + 8 * (b[1] - b'1'), (b[2] - b'a') + 8 * (b[3] - b'1'), promo);
+                assert!(pos.valid() && pos.is_legal(m), "harness: kinds-tour entry {} {} is not valid / legal", fen, mv);
+                let st = Start { pos, prelude: vec![m], tag: "kinds_tour" };
+                let cfg = WalkCfg { max_plies: 1, null_per_mille: 0, stop_on_divergence: true, follow_library: fl };
+                let nodes = playout(&st, &cfg, rng, mon, rep);
+                rep.add("ev_nodes", nodes as u64);
+                rep.count("ev_kinds_tour_steps");
+            }
+        });
+    }
     // stored inputs of the coverage-guided `play` campaign, replayed with this property's monitor
     if !is_miri {
         let inputs = crate::fuzzplay::stored_corpus();
@@ -73,9 +127,85 @@ fn walk_mix<M: NodeMon>(ctx: &Ctx, rep: &mut Report, mon: &mut M, quick: u64, th
     }
 }
 
+/// Every entry of the slider lookup tables is reached *through the move generator*: for each square
+/// and each occupancy of the squares that matter to a rook (bishop) standing there, a position with that
+/// rook (bishop, queen) of the side to move, knights of both colours as blockers and the two kings
+/// somewhere off the pattern is shown to the monitor.  102400 + 5248 positions per run.
+pub fn slider_entries<M: NodeMon>(ctx: &Ctx, rep: &mut Report, mon: &mut M) {
+    if ctx.variant == Variant::Miri {
+        return;
+    }
+    ctx.cases(rep, "slider-entries", (64 + ctx.nshards as u64 - 1) / ctx.nshards as u64, |gid, rng, rep| {
+        if gid >= 64 {
+            return;
+        }
+        let s = gid as u8;
+        let (f, r) = fr(s);
+        for (dirs, kinds) in [(&ORTH, [R, Q]), (&DIAG, [B, Q])].iter() {
+            let mut mask = 0u64;
+            for d in dirs.iter() {
+                let (mut cf, mut cr) = (f + d.0, r + d.1);
+                while let (Some(t), Some(_)) = (mk(cf, cr), mk(cf + d.0, cr + d.1)) {
+                    mask |= 1u64 << t;
+                    cf += d.0;
+                    cr += d.1;
+                }
+            }
+            let mut sub = 0u64;
+            loop {
+                let mut placed = false;
+                for _ in 0..20 {
+                    let mut p = RPos::empty();
+                    p.stm = WHITE;
+                    p.sq[s as usize] = pc(*rng.pick(kinds), WHITE);
+                    let mut i = 0;
+                    for t in 0..64u8 {
+                        if sub >> t & 1 == 1 {
+                            p.sq[t as usize] = pc(N, if (i + rng.below(2)) % 2 == 0 { WHITE } else { BLACK });
+                            i += 1;
+                        }
+                    }
+                    let free: Vec<u8> = (0..64u8).filter(|t| p.sq[*t as usize] == 0 && mask >> t & 1 == 0).collect();
+                    if free.len() < 2 {
+                        break;
+                    }
+                    let wk = *rng.pick(&free);
+                    let bk = *rng.pick(&free);
+                    if wk == bk {
+                        continue;
+                    }
+                    p.sq[wk as usize] = pc(K, WHITE);
+                    p.sq[bk as usize] = pc(K, BLACK);
+                    if !p.valid() {
+                        continue;
+                    }
+                    let p = if rng.chance(1, 2) { p.mirror_v() } else { p };
+                    let st = synth::Start::plain(p, "synth_slider_entries");
+                    if let Some(b) = setup(&st, rep) {
+                        let legal = st.pos.legal_moves();
+                        let n = Node { b: &b, p: &st.pos, legal: &legal, ply: 0, prev: None, after_null: false, tag: st.tag, incremental: false, diverged: false };
+                        mon.node(&n, rep, rng);
+                        rep.count("ev_slider_entries_shown");
+                        placed = true;
+                    }
+                    break;
+                }
+                if !placed {
+                    rep.count("abst_slider_entry_without_valid_position");
+                }
+                sub = sub.wrapping_sub(mask) & mask;
+                if sub == 0 {
+                    break;
+                }
+            }
+        }
+    });
+}
+
 pub fn run_c01(ctx: &Ctx, rep: &mut Report) {
     let mut mon = C01 { variant: ctx.variant };
     let d = if ctx.tier == Tier::Thorough { 3 } else { 2 };
+    slider_entries(ctx, rep, &mut mon);
     walk_mix(ctx, rep, &mut mon, 1500, 30_000, 2, 300, (20, 120), d);
 }
 
@@ -88,6 +218,7 @@ pub fn run_c02(ctx: &Ctx, rep: &mut Report) {
 pub fn run_c03(ctx: &Ctx, rep: &mut Report) {
     let mut mon = C03 { variant: ctx.variant };
     let d = if ctx.tier == Tier::Thorough { 4 } else { 3 };
+    slider_entries(ctx, rep, &mut mon);
     walk_mix(ctx, rep, &mut mon, 6000, 80_000, 2, 400, (20, 160), d);
 }
 
